@@ -36,13 +36,13 @@ def consts(nt, ma, task, clear=True):
 def plan(tier):
     if tier == "quick":
         return dict(
-            b3=[consts(3, 5, True), consts(3, 5, False), consts(2, 6, True)],
+            b3=[consts(3, 5, True), consts(2, 5, False)],
             dump=[consts(2, 4, True), consts(2, 3, False), consts(3, 3, True)],
             live=[consts(2, 3, True), consts(2, 3, False)],
             sim=[(consts(3, 7, True), 250), (consts(3, 7, False), 250)],
             walks=(300, 24), extend=3)
     return dict(
-        b3=[consts(3, 7, True), consts(3, 7, False), consts(2, 8, True)],
+        b3=[consts(3, 7, True), consts(3, 6, False), consts(2, 7, False)],
         dump=[consts(2, 5, True), consts(2, 4, False), consts(3, 4, True), consts(3, 3, False)],
         live=[consts(2, 4, True), consts(2, 4, False), consts(3, 3, False)],
         sim=[(consts(3, 7, True), 3000), (consts(3, 7, False), 3000), (consts(3, 10, True), 1500)],
@@ -223,6 +223,25 @@ def evaluate(comp, out, cases, results, wd, tag, what, st):
                     json.dumps((r.get("obs", []) + [r.get("end")])[d]) if d < len(r.get("obs", [])) + 1 else None))
 
 
+def run_cases_safe(comp, cases, wd, tag, budget=None):
+    """rp.run_cases, but a harness process killed by the code under test (abort on allocation failure,
+    stack overflow, ...) is data, not a tool error: the batch is bisected down to the aborting case,
+    which gets a {"panic": ...} result (P rejects it).  After 3 such cases the rest of the batch is skipped."""
+    budget = budget if budget is not None else [3]
+    if budget[0] <= 0:
+        return [{"id": c["id"], "skipped": True} for c in cases]
+    try:
+        return rp.run_cases(MEMBER, COMPONENT, cases, wd, tag=tag, input_keys=comp.input_keys, args=comp.args)
+    except core.ToolError as ex:
+        if " exited " not in str(ex):
+            raise
+        if len(cases) == 1:
+            budget[0] -= 1
+            return [{"id": cases[0]["id"], "panic": "the harness process was killed while running this case (%s)" % str(ex).strip()[:160]}]
+        h = len(cases) // 2
+        return run_cases_safe(comp, cases[:h], wd, tag, budget) + run_cases_safe(comp, cases[h:], wd, tag, budget)
+
+
 def mk_cases(paths, prefix, rng, extra_cfg=None):
     cases = []
     for i, p in enumerate(paths):
@@ -301,7 +320,9 @@ class Run:
     def replay_paths(self, paths, prefix, what, k):
         self.n_interesting += sum(1 for p in paths if self.interesting(p))
         cases = mk_cases(paths, prefix, self.rng, self.extra_cfg(k))
-        results = rp.run_cases(MEMBER, COMPONENT, cases, self.wd, tag=prefix, input_keys=self.comp.input_keys, args=self.comp.args)
+        results = run_cases_safe(self.comp, cases, self.wd, prefix)
+        keep = [j for j, r_ in enumerate(results) if not r_.get("skipped")]
+        cases, results = [cases[j] for j in keep], [results[j] for j in keep]
         before = dict(self.st)
         evaluate(self.comp, self.out, cases, results, self.wd, prefix, what, self.st)
         return len(cases), tuple(self.st[x] - before[x] for x in ("conform", "drift", "rejected"))
@@ -368,9 +389,9 @@ def sconsts(ns, push, spec, sync, val):
 def plan_supply(tier):
     if tier == "quick":
         return dict(b3=[sconsts(2, 3, 3, 1, 1), sconsts(1, 4, 3, 1, 2)],
-                    dump=[sconsts(2, 2, 3, 1, 1), sconsts(1, 3, 3, 1, 1)],
+                    dump=[sconsts(2, 2, 2, 1, 1), sconsts(1, 3, 3, 1, 1)],
                     live=[sconsts(1, 3, 2, 1, 1)],
-                    sim=[(sconsts(2, 8, 6, 2, 3), 250)],
+                    sim=[(sconsts(2, 8, 6, 2, 3), 500)],
                     walks=(200, 24), extend=3)
     return dict(b3=[sconsts(2, 4, 4, 1, 2), sconsts(2, 5, 3, 1, 1), sconsts(1, 6, 4, 2, 2)],
                 dump=[sconsts(2, 3, 3, 1, 1), sconsts(1, 4, 3, 1, 2), sconsts(2, 2, 4, 1, 0)],
@@ -444,7 +465,7 @@ def replay_k(obj, wd, prop="C14", path="?"):
     case = obj["case"]
     comp = SUP if obj.get("component") == SUP.name else CMD
     os.makedirs(wd, exist_ok=True)
-    res = rp.run_cases(MEMBER, COMPONENT, [case], wd, tag="replay", input_keys=comp.input_keys, args=comp.args)[0]
+    res = run_cases_safe(comp, [case], wd, "replay")[0]
     d = diff_case(comp, case, res)
     print("component:", comp.name)
     print("first divergence from M at step:", d)
